@@ -92,6 +92,9 @@ def main(tier, seed):
         for maxcor in mc:
             for L in range(1, maxcor + 2):
                 jobs.append((S, dict(n=n, maxcor=maxcor, len=L)))
+    # forced rebuild (is_force_update=True: what the solver does after update_fun_def) with a rejected candidate
+    for maxcor, L in ((2, 2), (2, 3), (3, 3)):
+        jobs.append((S, dict(n=2, maxcor=maxcor, len=L, force=1)))
     jobs += [(C, dict(n=1, m=1)), (C, dict(n=2, m=1)), (C, dict(n=3, m=1)),
              (C, dict(n=2, m=2, nsym=1, ylin=1, seed=seed)), (C, dict(n=2, m=3, nsym=1, ylin=1, seed=seed)),
              (C, dict(n=2, m=2, nsym=1, trust_pd=1, seed=seed)), (C, dict(n=2, m=3, nsym=1, trust_pd=1, seed=seed))]
